@@ -47,6 +47,27 @@ DEMO[C18b]="F:history_roundtrip_demo_test.go=pkg/suggestion/v1beta1/goptuna|./pk
 DEMO[C19b]="F:seed_c19b_demo_test.go=pkg/db/v1beta1/postgres|./pkg/db/v1beta1/postgres/|-run SeedC19b"
 DEMO[C20b]="TREE|./pkg/ui/v1beta1/|-run TestTrialInfoIsBoundToAuthorizedNamespace"
 
+DEMO[C01c]="TREE|./pkg/controller.v1beta1/experiment/c01cdemo/|"
+DEMO[C02c]="F:generator_configmap_scalar_demo_test.go=pkg/controller.v1beta1/experiment/manifest|./pkg/controller.v1beta1/experiment/manifest/|-run TestDemo"
+DEMO[C03c]="F:c03c_demo_test.go=pkg/controller.v1beta1/experiment|./pkg/controller.v1beta1/experiment/|-overlay @S@/demo/overlay.json -run TestC03c"
+DEMO[C04c]="F:restart_quiescence_test.go=pkg/controller.v1beta1/experiment/c04cdemo|./pkg/controller.v1beta1/experiment/c04cdemo/|"
+DEMO[C05c]="F:status_util_c05c_demo_test.go=pkg/controller.v1beta1/experiment/util|./pkg/controller.v1beta1/experiment/util/|-run TestC05c"
+DEMO[C06c]="F:reconcile_c06c_demo_test.go=pkg/controller.v1beta1/trial/c06cdemo,job_util_c06c_demo_test.go=pkg/controller.v1beta1/trial/util|./pkg/controller.v1beta1/trial/c06cdemo/ ./pkg/controller.v1beta1/trial/util/|"
+DEMO[C07c]="F:finalizer_demo_test.go=pkg/controller.v1beta1/trial/c07cdemo|./pkg/controller.v1beta1/trial/c07cdemo/|"
+DEMO[C08c]="F:seed_c08c_demo_test.go=pkg/controller.v1beta1/suggestion/suggestionclient|./pkg/controller.v1beta1/suggestion/suggestionclient/|-run TestSeedC08c"
+DEMO[C09c]="F:restart_trials_test.go=pkg/controller.v1beta1/suggestion/c09cdemo|./pkg/controller.v1beta1/suggestion/c09cdemo/|"
+DEMO[C10c]="F:seed_c10c_demo_test.go=pkg/controller.v1beta1/suggestion/suggestionclient|./pkg/controller.v1beta1/suggestion/suggestionclient/|-run SeedC10c"
+DEMO[C11c]="F:c11c_demo_test.go=pkg/controller.v1beta1/trial/c11cdemo|./pkg/controller.v1beta1/trial/c11cdemo/|"
+DEMO[C12c]="F:push_collector_pod_without_primary_container_test.go=pkg/webhook/v1beta1/pod|./pkg/webhook/v1beta1/pod/|-run TestSeedC12c"
+DEMO[C13c]="F:seed_c13c_demo_test.go=pkg/metricscollector/v1beta1/file-metricscollector|./pkg/metricscollector/v1beta1/file-metricscollector/|"
+DEMO[C14c]="F:admission_soundness_demo_test.go=pkg/webhook/v1beta1/experiment/validator|./pkg/webhook/v1beta1/experiment/validator/|-run TestAdmittedExperiment"
+DEMO[C15c]="F:seed_c15c_demo_test.go=pkg/webhook/v1beta1/experiment/validator|./pkg/webhook/v1beta1/experiment/validator/|-run TestSeedC15c"
+DEMO[C16c]="F:cleanup_fault_test.go=pkg/controller.v1beta1/suggestion/c16cdemo|./pkg/controller.v1beta1/suggestion/c16cdemo/|"
+DEMO[C17c]="F:c17c_demo_test.go=pkg/controller.v1beta1/suggestion/composer/c17cdemo|./pkg/controller.v1beta1/suggestion/composer/c17cdemo/|"
+DEMO[C18c]="F:seed_c18c_stepped_double_test.go=pkg/suggestion/v1beta1/goptuna|./pkg/suggestion/v1beta1/goptuna/|-run TestSeedC18c"
+DEMO[C19c]="F:utc_offset_demo_test.go=pkg/db/v1beta1/mysql|./pkg/db/v1beta1/mysql/|-run Demo"
+DEMO[C20c]="F:authzn_userprefix_test.go=pkg/ui/v1beta1|./pkg/ui/v1beta1/|"
+
 suite() { # per-test pass/fail set, timing removed
   go test -json -vet=off -count=1 -timeout 25m ./... 2>/dev/null | python3 -c '
 import sys, json
@@ -69,6 +90,7 @@ place() { # copy demo files of seed $1 into the worktree
 one() {
   local ID=$1 W=/tmp/wt/$1 S=/tmp/seed/$1; local spec=${DEMO[$1]}; local rest=${spec#*|}; local pkgs=${rest%%|*}; local flags=${rest#*|}; flags=${flags%%|*}
   [ -d $S ] || S=/verif/seeded/$ID
+  flags=${flags//@S@/$S}
   [ -d $W ] || git -C /repo worktree add -q --detach $W $HEAD
   cd $W || return 2
   git checkout -q --detach $HEAD 2>/dev/null; git checkout -q -- . ; git clean -fdq
